@@ -47,6 +47,7 @@ def grid(tier, seed):
 
 
 def tus(tier, seed):
+    types4 = list(CT)
     combos = grid(tier, seed)
     per = 3
     res = []
@@ -74,6 +75,25 @@ def tus(tier, seed):
     res.append(dict(name='C12_kernels', src=body, compiler='g++'))
     if tier == 'thorough':
         res.append(dict(name='C12_kernels_clang', src=body, compiler='clang++'))
+    # compound assignment with non-zero exponents (conversion back to the left operand's type rescales);
+    # built-in representations only: `scale` of a wrapper representation is not in the layered model
+    ENEST = {'sc': 'scaled_integer<{T}, power<{E}>>', 'sc(ov)': 'scaled_integer<overflow_integer<{T}, native_overflow_tag>, power<{E}>>',
+             'sc(rd)': 'scaled_integer<rounding_integer<{T}, native_rounding_tag>, power<{E}>>', 'int': '{T}'}
+    epairs = [('sc', 'u8', -4, 'sc', 'i8', -4), ('sc', 'u8', 0, 'sc', 'i8', -8), ('sc', 'i8', 0, 'sc', 'i8', -4), ('sc', 'i16', -8, 'sc', 'u8', -3),
+              ('sc', 'u16', -4, 'int', 'i8', 0), ('sc', 'u8', -2, 'sc', 'i8', -5), ('sc', 'i8', -3, 'sc', 'i8', -6), ('sc', 'i32', -16, 'sc', 'i32', -12),
+              ('sc', 'u32', -8, 'sc', 'i16', -10), ('sc', 'i8', 2, 'sc', 'i8', -1), ('sc', 'i64', -20, 'sc', 'u8', -4)]
+    rnd4 = random.Random(seed * 77 + 5)
+    for _ in range(3 if tier == 'quick' else 24):
+        epairs.append((rnd4.choice(['sc']), rnd4.choice(types4), rnd4.choice([-12, -8, -4, -2, 0, 1, 3]),
+                       rnd4.choice(['sc', 'sc', 'int']), rnd4.choice(types4), rnd4.choice([-12, -8, -4, -2, 0, 1, 3])))
+    for i in range(0, len(epairs), 3):
+        body = '#include "%s"\nint main(){ install(); Rng rng(seed_from_env()+2000+%d);\n' % (__file__.replace('.py', '.h'), i)
+        for (nl, tl, el, nr, tr, er) in epairs[i:i + 3]:
+            if nr != 'int' and nr != nl:
+                nr = nl
+            body += '  goe<%s, %s>(rng);\n' % (ENEST[nl].format(T=CT[tl], E=el), ENEST[nr].format(T=CT[tr], E=er))
+        body += '}\n'
+        res.append(dict(name='C12_asge_%d' % (i // 3), src=body, compiler='g++'))
     # shift-and-compare equivalence: mixed-exponent comparisons over narrow reps, both operand orders
     # (lines of the C03 table; the driver's oracle is the built-in comparison of the aligned representations)
     import os
